@@ -83,6 +83,23 @@ Proof.
   exact (interrupt_at_most_once_proof cfg ops y i pre e1 mid e2 post Ho Hk (gate_transparent_no_authz cfg ops Ha)).
 Qed.
 
+Theorem timeout_kept_arms_timer_noauthz_proof : forall cfg ops1 x q opts proc a kw orc ops2 y i rid det,
+    c_authz cfg = None ->
+    Forall op_ok (ops1 ++ OMsg x (CCall q opts proc a kw) orc :: ops2) ->
+    k0 cfg + N.of_nat (List.length (ops1 ++ OMsg x (CCall q opts proc a kw) orc :: ops2)) <= max_idN ->
+    let r1 := fst (run (init_realm cfg) ops1) in
+    snd (step r1 (OMsg x (CCall q opts proc a kw) orc)) = [(y, RInvocation i rid det a kw)] ->
+    ~ rrec r1 (x, q) ->
+    (0 < opt_int64 opts "timeout")%Z -> dget det "timeout" = None ->
+    exists t, nget (d_timers (r_dealer r1)) t = None /\
+              nget (d_timers (r_dealer (fst (step r1 (OMsg x (CCall q opts proc a kw) orc))))) t =
+              Some (clock (trace cfg ops1) + Z.to_N (opt_int64 opts "timeout"), (x, q)).
+Proof.
+  intros cfg ops1 x q opts proc a kw orc ops2 y i rid det Ha Ho Hk.
+  exact (timeout_kept_arms_timer_proof cfg ops1 x q opts proc a kw orc ops2 y i rid det Ho Hk
+                                       (gate_transparent_no_authz cfg _ Ha)).
+Qed.
+
 (** the clock of the model is the sum of the ticks of the history *)
 Theorem clock_is_ticks_proof : forall cfg ops,
     c_authz cfg = None -> Forall op_ok ops -> k0 cfg + N.of_nat (List.length ops) <= max_idN ->
